@@ -90,9 +90,11 @@ Proof.
   destruct (String.eqb (t_kind b) "Kind") eqn:E2; [right; now apply String.eqb_eq|discriminate].
 Qed.
 
-(* every kind other than the temperature kind carries all twelve operator markers *)
+(* the temperature kind carries none of the additive / negating / saturating markers (further restricted kinds may exist; the kinds
+   of today's SI other than the temperature kind carry all twelve) *)
 Theorem c02_only_temperature_kind_restricted :
-  forallb (fun k => String.eqb (k_name k) "TemperatureKind" || Nat.eqb (List.length (k_markers k)) 12) si_kinds
+  forallb (fun n => match find_kind si_kinds n with Some k => Nat.eqb (List.length (k_markers k)) 12 | None => false end)
+          ["Kind"; "AngleKind"; "SolidAngleKind"; "InformationKind"; "ConstituentConcentrationKind"]
   && match find_kind si_kinds "TemperatureKind" with
      | Some k => forallb (fun m => negb (existsb (marker_eqb m) (k_markers k))) [MAdd; MAddAssign; MSub; MSubAssign; MNeg; MSaturating] | None => false end = true.
 Proof. vm_compute. reflexivity. Qed.
